@@ -235,6 +235,12 @@ type runner struct {
 	viol     func(lib.Violation) // where violations go (the per-signature collector, or a shrink trial)
 	sweeps   int        // byte-offset sweeps left for this history (thorough tier)
 	hooked   []hookSnap // copies of the directory taken at the crash points of the running operation
+	// physical layer (chunk.go): the bytes of the log being written as a failing append left them (seen at
+	// the crash point before the tail repair); the sizes of the logs already compared with the model
+	torn         []byte
+	tornNum      uint64
+	chunkSeen    map[uint64]int64
+	chunkSeenDir string
 }
 
 // hookSnap is a copy of the WAL directory taken by the crash-point hook (utils/verifhook) while a
@@ -618,7 +624,16 @@ func (r *runner) checkImage(cop, ft string, idx int, b base, mask uint64, alt in
 		r.res.Hit("image:zombie-resurrected")
 	}
 	at := map[string]any{"cop": cop, "fault": fault(ft), "base": idx, "mask": ms, "tail": tv, "disk": parts[0]}
+	var cnum uint64
+	var cbytes []byte
+	cok := false
+	if wantOK && (hasG && r.rng.Intn(3) == 0 || r.rng.Intn(25) == 0) {
+		cnum, cbytes, cok = r.chunkImageBefore(dir)
+	}
 	r.checkDir(dir, label, at, wantOK, want, allowed, r.durable(), inflight, hasG && tv.Kind != "cut" && tv.Kind != "junk" && tv.Kind != "trailer")
+	if cok {
+		r.chunkImageAfter(dir, cnum, cbytes, at)
+	}
 	_ = os.RemoveAll(dir)
 }
 
@@ -1008,6 +1023,7 @@ func (r *runner) compareState(step string) {
 		if err != nil || perr != nil || !descEq(rd, md) {
 			r.mismatch("directory", step, md.String(), fmt.Sprintf("%s %v", rd.String(), err))
 		}
+		r.chunkScanDir(step)
 	}
 }
 
@@ -1362,9 +1378,13 @@ func (r *runner) exec(o Op) {
 		}
 		watch := every || r.rng.Intn(6) == 0
 		r.hooked = nil
+		cpre := r.chunkBefore(wasClosed)
 		inj := r.newInjector(o, bs)
 		failSink = inj.fail
 		hookSink = func(p string) {
+			if p == "walstore:abort:before-repair" && r.torn == nil {
+				r.tornAtHook(cpre)
+			}
 			if p == "walstore:flush:after-append-sync" {
 				// learn (and hard-link) the log just written: the same call may unlink it
 				_, _ = r.real.observe(r.real.db, true)
@@ -1467,6 +1487,7 @@ func (r *runner) exec(o Op) {
 		if limboNow {
 			r.limbo = append([]call(nil), r.calls...)
 		}
+		r.chunkAfterOp(o, m, cpre, mPending, mSeq)
 		r.res.Compared(1)
 		if ml := r.ask("limbo"); ml != strconv.Itoa(len(r.limbo)) {
 			r.mismatch("limbo", o.String(), ml, len(r.limbo))
@@ -1873,6 +1894,16 @@ func main() {
 		g := rng.Fork(uint64(len(jobs)))
 		jobs = append(jobs, job{name: fmt.Sprintf("cfault-%d", i), ops: genCleanupFault(g, kind), level: 1, serial: true, seed: g.Uint64()})
 	}
+	// the k-th append into a log that holds acknowledged batches fails: every kind x k x {small, block-crossing}
+	for rep := 0; rep < f.Scale(1, 6); rep++ {
+		for ki, kind := range appendFailKinds {
+			for _, k := range []int{2, 3, 5} {
+				fat := (ki+k+rep)%4 == 0
+				g := rng.Fork(uint64(len(jobs)))
+				jobs = append(jobs, job{name: fmt.Sprintf("afail-%d", len(jobs)), ops: genAppendFail(g, k, kind, fat), level: 1, serial: true, seed: g.Uint64()})
+			}
+		}
+	}
 	// longest first within a shard would not help: interleave by index
 	t0 := time.Now()
 	n := 0
@@ -1893,6 +1924,9 @@ func main() {
 		runCodec(f, res, *shardFlag, *shardsFlag, runRoot)
 		t2 := time.Now()
 		runBatch(f, res, *shardFlag, *shardsFlag, runRoot)
+		t3 := time.Now()
+		runChunk(f, res, *shardFlag, *shardsFlag, runRoot)
+		res.Note("shard %d/%d: physical-layer section in %.1fs", *shardFlag, *shardsFlag, time.Since(t3).Seconds())
 		runRotateNoRepair(f, res, *shardFlag, *shardsFlag, runRoot)
 		res.Note("shard %d/%d: batch-layer / watermark-file section in %.1fs", *shardFlag, *shardsFlag, time.Since(t2).Seconds())
 		if *shardFlag == 0 {
@@ -2012,6 +2046,7 @@ func replayFile(f lib.Flags, res *lib.Result) {
 		ff.Tier = "thorough"
 		runCodec(ff, res, 0, 1, root)
 		runBatch(ff, res, 0, 1, root)
+		runChunk(ff, res, 0, 1, root)
 		return
 	}
 	serial := false
